@@ -30,22 +30,23 @@ func (o *Obj) String() string { return fmt.Sprintf("%s#%x", o.kind, o.id&0xfffff
 
 // G is one simulated goroutine.
 type G struct {
-	ID      int    // creation index in this execution (schedule-dependent)
-	stable  uint64 // schedule-independent identity
-	Name    string // creation site
-	wake    chan struct{}
-	pending func() bool // non-nil while parked: is my next op enabled?
-	pendTag string      // label of the pending op (for census)
-	pendObj *Obj
-	done    bool
-	started bool
-	nEvents uint32
-	nObjs   uint32
-	nSpawn  uint32
-	run     int // consecutive steps while others enabled (fairness)
-	Stack   string
-	pcs     []uintptr
-	isTimer bool
+	ID        int    // creation index in this execution (schedule-dependent)
+	stable    uint64 // schedule-independent identity
+	Name      string // creation site
+	wake      chan struct{}
+	pending   func() bool // non-nil while parked: is my next op enabled?
+	pendTag   string      // label of the pending op (for census)
+	pendObj   *Obj
+	done      bool
+	started   bool
+	nEvents   uint32
+	nObjs     uint32
+	nSpawn    uint32
+	run       int // consecutive steps while others enabled (fairness)
+	Stack     string
+	pcs       []uintptr
+	isTimer   bool
+	quiescing bool
 }
 
 // EndKind says why an execution ended.
@@ -76,12 +77,13 @@ type Point struct {
 
 // Options configure one execution.
 type Options struct {
-	Horizon    time.Duration // virtual time after which the execution is cut (default 40s)
-	MaxSteps   int           // step budget (default 200000)
-	FairLimit  int           // consecutive steps before a free deschedule (default 64)
-	WantStacks bool          // capture full stacks of blocked goroutines at the end
-	NoExplore  bool          // start outside the explored window until BeginExplore
-	Trace      bool          // keep a textual event log
+	Horizon          time.Duration // virtual time after which the execution is cut (default 40s)
+	MaxSteps         int           // step budget (default 200000)
+	FairLimit        int           // consecutive steps before a free deschedule (default 64)
+	WantStacks       bool          // capture full stacks of blocked goroutines at the end
+	NoExplore        bool          // start outside the explored window until BeginExplore
+	Trace            bool          // keep a textual event log
+	NoTimerDeviation bool          // timers never fire while a goroutine can run (no I/O stalls)
 }
 
 // Result is what one execution produced.
@@ -121,27 +123,27 @@ type timer struct {
 
 // Sched is the state of one execution.
 type Sched struct {
-	opt      Options
-	gs       []*G
-	cur      *G
-	clock    time.Duration
-	epoch    time.Time
-	timers   []*timer
-	strat    Strategy
-	res      Result
-	dying    bool
-	endOnce  sync.Once
-	endCh    chan struct{}
-	wg       sync.WaitGroup
-	hash     [2]uint64
-	explore  bool
-	timerG   *G
-	clockObj *Obj
-	obsObj   *Obj
-	lastClockStep int
-	bodyDone bool
+	opt            Options
+	gs             []*G
+	cur            *G
+	clock          time.Duration
+	epoch          time.Time
+	timers         []*timer
+	strat          Strategy
+	res            Result
+	dying          bool
+	endOnce        sync.Once
+	endCh          chan struct{}
+	wg             sync.WaitGroup
+	hash           [2]uint64
+	explore        bool
+	timerG         *G
+	clockObj       *Obj
+	obsObj         *Obj
+	lastClockStep  int
+	bodyDone       bool
 	stopAtBodyDone bool
-	mu       sync.Mutex // only guards Alive bookkeeping at teardown
+	mu             sync.Mutex // only guards Alive bookkeeping at teardown
 }
 
 // S is the execution in progress (one per process at a time).
@@ -546,6 +548,9 @@ func (s *Sched) reschedule(from *G, exiting bool) {
 			alts = append([]*G{from}, alts...)
 		}
 		hasTimer := s.nextTimer() != nil
+		if hasTimer && len(alts) > 0 && s.opt.NoTimerDeviation {
+			hasTimer = false // time only passes when nothing can run: no stalls
+		}
 		n := len(alts)
 		if hasTimer {
 			n++
@@ -759,4 +764,26 @@ func Obs(tag string) {
 		s.obsObj = &Obj{id: 0x0b5, kind: "obs"}
 	}
 	s.event(s.obsObj, tag, 0, true)
+}
+
+// Quiesce blocks the caller until no other simulated goroutine can run (all
+// are finished or blocked on I/O, locks, channels or timers). It is a harness
+// primitive: "the rest of the system has done everything it can do now".
+// It does not depend on any timer, so timer deviations cannot cut it short.
+func Quiesce() {
+	s := S
+	me := s.cur
+	me.quiescing = true
+	s.do(nil, "quiesce", func() bool {
+		for _, g := range s.gs {
+			if g == me || g.done || g.pending == nil || g.quiescing {
+				continue
+			}
+			if g.pending() {
+				return false
+			}
+		}
+		return true
+	}, nil)
+	me.quiescing = false
 }
